@@ -1152,3 +1152,52 @@ M('C13','get-nolock','ds/reactive/variable_impl.go','''func (r *readableVariable
 M('C11','replace-returns-previous','ds/set_impl.go','''		// elements that are part of the new set were not removed
 		removedElements.Delete(element)
 ''','','set/exact-diff ds.set.Replace')
+
+# ---------------- C14
+M('C14','derived3-missing-subscription','ds/reactive/variable.go','''			input2.OnUpdate(func(_, input2 InputType2) {
+				d.Compute(func(currentValue Type) Type { return compute(currentValue, input1.Get(), input2, input3.Get()) })
+			}, true),
+			input3.OnUpdate(func(_, input3 InputType3) {
+				d.Compute(func(currentValue Type) Type { return compute(currentValue, input1.Get(), input2.Get(), input3) })
+			}, true),
+		)''','''			input3.OnUpdate(func(_, input3 InputType3) {
+				d.Compute(func(currentValue Type) Type { return compute(currentValue, input1.Get(), input2.Get(), input3) })
+			}, true),
+		)''','derived/wiring ds/reactive.NewDerivedVariable3')
+M('C14','derived2-no-initial-trigger','ds/reactive/variable.go','''			input2.OnUpdate(func(_, input2 InputType2) {
+				d.Compute(func(currentValue Type) Type { return compute(currentValue, input1.Get(), input2) })
+			}, true),''','''			input2.OnUpdate(func(_, input2 InputType2) {
+				d.Compute(func(currentValue Type) Type { return compute(currentValue, input1.Get(), input2) })
+			}),''','derived/wiring ds/reactive.NewDerivedVariable2')
+M('C14','inherited-direction-swapped','ds/reactive/set_impl.go','''	mutations.AddedElements().Range(s.setArithmetic.AddedElementsCollector(inheritedMutations))
+	mutations.DeletedElements().Range(s.setArithmetic.SubtractedElementsCollector(inheritedMutations))''','''	mutations.AddedElements().Range(s.setArithmetic.SubtractedElementsCollector(inheritedMutations))
+	mutations.DeletedElements().Range(s.setArithmetic.AddedElementsCollector(inheritedMutations))''','derivedset/collector-direction ds/reactive.derivedSet.applyInheritedMutations')
+M('C14','inheritfrom-unsub-keeps-elements','ds/reactive/set_impl.go','unsubscribeCallbacks = append(unsubscribeCallbacks, unsubscribeFromSource, removeSourceElements)','_ = removeSourceElements\n\t\tunsubscribeCallbacks = append(unsubscribeCallbacks, unsubscribeFromSource)','derivedset/unsubscribe-removes')
+M('C14','waitgroup-late-increment','ds/reactive/wait_group_impl.go','''	w.pendingElementsCounter.Add(int32(len(elements)))
+
+	// then add the elements (and correct the counter if the elements are already present)
+	for _, element := range elements {
+		if !w.pendingElements.Add(element) {
+			w.pendingElementsCounter.Add(-1)
+		}
+	}''','''	for _, element := range elements {
+		if w.pendingElements.Add(element) {
+			w.pendingElementsCounter.Add(1)
+		}
+	}''','waitgroup/pre-increment')
+M('C14','waitgroup-load-then-decide','ds/reactive/wait_group_impl.go','if w.pendingElements.Delete(element) && w.pendingElementsCounter.Add(-1) == 0 {','if w.pendingElements.Delete(element) && w.pendingElementsCounter.Add(-1) <= 0 && w.pendingElementsCounter.Load() == 0 {','waitgroup/trigger-on-rmw')
+M('C14','evictionevent-offbyone','ds/reactive/eviction_state_impl.go','if e.lastEvictedSlot == nil || slot > *e.lastEvictedSlot {','if e.lastEvictedSlot == nil || slot >= *e.lastEvictedSlot {','evict/pre-triggered-iff-evicted')
+M('C14','evict-trigger-under-lock','ds/reactive/eviction_state_impl.go','''	for _, slotEvictedEvent := range e.evict(slot) {
+		slotEvictedEvent.Trigger()
+	}''','''	e.mutex.RLock()
+	defer e.mutex.RUnlock()
+	for _, slotEvictedEvent := range e.evictionEvents.Values() {
+		slotEvictedEvent.Trigger()
+	}''','lock/no-callback-under-lock')
+M('C14','sorted-swap-no-index','ds/reactive/sorted_set_impl.go','		left.index, right.index = right.index, left.index\n','','sorted/slot-index-coupled ds/reactive.sortedSet.swap')
+M('C14','sorted-ascending-nolock','ds/reactive/sorted_set_impl.go','''func (s *sortedSet[ElementType, WeightType]) Ascending() (sortedSlice []ElementType) {
+	s.mutex.RLock()
+	defer s.mutex.RUnlock()
+''','''func (s *sortedSet[ElementType, WeightType]) Ascending() (sortedSlice []ElementType) {
+''','lock/guarded-by sortedSet.sortedElements in ds/reactive.sortedSet.Ascending')
+M('C14','monitor-memory-not-updated','ds/reactive/counter_impl.go','				conditionWasTrue = conditionIsTrue\n','','counter/condition-memory')
